@@ -222,8 +222,12 @@ def stats(cases, results):
 
 # ---- stream 2: processes that really run at the same time (no gate), decided by the property itself ---------------------
 def gen_free(rng, tier, ctx):
-    return [(pre, n) for pre in (0, 1) for n in ((2, 3, 4, 8) if tier != "thorough" else (2, 3, 4, 6, 8, 12, 16))
-            for _ in range(2 if tier != "thorough" else 5)]
+    cases = [(pre, n) for pre in (0, 1) for n in ((2, 3, 4, 8) if tier != "thorough" else (2, 3, 4, 6, 8, 12, 16))
+             for _ in range(2 if tier != "thorough" else 5)]
+    # a slow peer: another connection holds the write lock of the database for a good half second while the sessions are created
+    # (a session creator whose commit is slow); the others have to wait for it, not fail
+    cases += [(pre, n, hold) for pre in (0, 1) for n in (1, 2, 3) for hold in ((0.7,) if tier != "thorough" else (0.3, 0.7, 1.5))]
+    return cases
 
 
 def impl_free(case):
@@ -240,7 +244,8 @@ def impl_free(case):
 def _impl_free_once(case):
     import multiprocessing as mp
     import androguard.session  # noqa
-    pre, n = case
+    pre, n = case[:2]
+    hold = case[2] if len(case) > 2 else 0
     ctx = mp.get_context("fork")
     top = tempfile.mkdtemp(prefix="c36f-", dir=os.environ.get("VERIF_TMP", "/var/tmp"))
     path = os.path.join(top, "s.db")
@@ -260,8 +265,19 @@ def _impl_free_once(case):
                 d.send("go")
                 m = a.recv() if a.poll(60) else ("end", i, "error", "timeout")
                 res[i] = (m[2], m[3])
+        holder = None
+        if hold:
+            import sqlite3
+            import time
+            holder = sqlite3.connect(path, isolation_level=None)
+            holder.execute("PRAGMA journal_mode=WAL")       # as every connection dataset opens does first (a lock held in
+            holder.execute("BEGIN IMMEDIATE")               # rollback-journal mode makes that statement of a peer fail at once)
         for i in range(pre, pre + n):
             chans[i][1].send("go")
+        if holder is not None:
+            time.sleep(hold)
+            holder.execute("ROLLBACK")
+            holder.close()
         for i in range(pre, pre + n):
             a = chans[i][0]
             m = a.recv() if a.poll(120) else ("end", i, "error", "timeout")
